@@ -150,6 +150,13 @@ def run_check(ctx):
             recs = [r for i, r in enumerate(recs)
                     if i + 1 == len(recs) or recs[i + 1]["p"][:len(r["p"])] != r["p"]]
             ctx.notes["simulated_programs"] = len(recs)
+        cap = 300000
+        if len(recs) > cap:      # fixed stratified cut (independent of the seed) to bound memory and time
+            recs.sort(key=lambda r: r["p"])
+            step = -(-len(recs) // cap)
+            ctx.notes.setdefault("sampled", []).append("%s: every %d-th of %d sorted programs" % (cfg, step, len(recs)))
+            recs = recs[::step]
+        res.out = ""
         for r in recs:
             key = tuple(r["p"])
             if key not in seen:
@@ -168,7 +175,7 @@ def run_check(ctx):
     if missing:
         raise MachineryError("vacuous run: line kinds never generated: %s" % missing)
     ctx.notes["line_kind_occurrences"] = seen_codes
-    ctx.cov["exhaustive"] = True   # the BFS configurations; the simulated deeper programs are extra
+    ctx.cov["exhaustive"] = not ctx.notes.get("sampled")   # BFS configurations replayed completely (simulated programs are extra)
     ctx.cov["rule"] = ("TLC enumerates every well-nested directive sequence within the cfg bounds; each closed "
                        "program containing a conditional is replayed through parse_file -E and gcc -E; "
                        "non-trivial = the program has at least one skipped line with an effect or at least one "
